@@ -331,15 +331,31 @@ class SI:
 
     __rmul__ = __mul__
 
+    @staticmethod
+    def _pos_divisor(o):
+        """z3 div/mod agree with python's // and % for positive divisors only"""
+        if isinstance(o, (int, np.integer)):
+            if int(o) <= 0:
+                raise Unsupported('division by a non-positive constant')
+            return z3.IntVal(int(o))
+        if isinstance(o, SI):
+            r, _ = ST.ex.solver_check(ST.path.pc + [o.e <= 0], timeout_ms=5000)
+            if r != 'unsat':
+                raise Unsupported('integer division by a symbolic divisor that may be non-positive')
+            return o.e
+        raise Unsupported('integer division by %r' % type(o))
+
     def __floordiv__(self, o):
-        if not isinstance(o, (int, np.integer)) or int(o) <= 0:
-            raise Unsupported('floor division by a non-constant or non-positive divisor')
-        return SI(self.e / z3.IntVal(int(o)))
+        return SI(self.e / SI._pos_divisor(o))
+
+    def __rfloordiv__(self, o):
+        return SI(SI.t(o) / SI._pos_divisor(self))
 
     def __mod__(self, o):
-        if not isinstance(o, (int, np.integer)) or int(o) <= 0:
-            raise Unsupported('modulo by a non-constant or non-positive divisor')
-        return SI(self.e % z3.IntVal(int(o)))
+        return SI(self.e % SI._pos_divisor(o))
+
+    def __rmod__(self, o):
+        return SI(SI.t(o) % SI._pos_divisor(self))
 
     def __neg__(self):
         return SI(-self.e)
